@@ -218,7 +218,10 @@ def gen(tier, rnd):
             case(sl, cuts_to_chunks(n, cs), ws=1, http=H)
     # frames a CoAP endpoint does not take: unmasked, text, ping, close, continuation; a frame longer than the buffer
     odd = [ws_frame(W['get0'], rnd, masked=False), ws_frame(W['get0'], rnd, opcode=1), ws_frame(b'', rnd, opcode=9), ws_frame(b'\x03\xe8', rnd, opcode=8),
-           ws_frame(W['get0'], rnd, opcode=0), ws_frame(bytes(1500), rnd), bytes([0x82, 0xff, 0, 0, 0, 1, 0, 0, 0, 0, 1, 2, 3, 4])]
+           ws_frame(W['get0'], rnd, opcode=0), ws_frame(bytes(1500), rnd), bytes([0x82, 0xff, 0, 0, 0, 1, 0, 0, 0, 0, 1, 2, 3, 4]),
+           bytes([0x82, 0xff, 0x80, 0, 0, 0, 0, 0, 0, 0x10, 9, 8, 7, 6]) + bytes(4096),            # 64-bit length with the top bit set (RFC 6455 forbids it)
+           bytes([0x82, 0xff, 0xff, 0xff, 0xff, 0xff, 0xff, 0xff, 0xff, 0xff, 1, 1, 1, 1]) + bytes(64),
+           bytes([0x82, 0xfe, 0xff, 0xff, 5, 5, 5, 5]) + bytes(3000)]                                 # 16-bit length 65535
     for o in odd:
         body = ws_frame(W['csm'], rnd) + ws_frame(W['get8'], rnd) + o + ws_frame(W['get0'], rnd)
         sl = lit([HTTP_UPGRADE, body])
